@@ -696,6 +696,7 @@ func blockContainsAccounts(block *old_faithful_grpc.BlockResponse, accounts []st
 		meta, err := solanatxmetaparsers.ParseTransactionStatusMetaContainer(tx.Meta)
 		if err != nil {
 			klog.Errorf("Failed to parse transaction meta: %v", err)
+			continue
 		}
 
 		loadedAccounts := meta.GetLoadedAccounts()
@@ -728,6 +729,10 @@ func (multi *MultiEpoch) StreamTransactions(params *old_faithful_grpc.StreamTran
 	ctx, overallCancel := context.WithTimeout(ctx, 60*time.Second)
 	defer overallCancel()
 
+	if err := validateStreamTransactionsFilter(params.Filter); err != nil {
+		return status.Errorf(codes.InvalidArgument, "invalid filter: %v", err)
+	}
+
 	startSlot := params.StartSlot
 	endSlot := startSlot + maxSlotsToStream
 
@@ -743,6 +748,30 @@ func (multi *MultiEpoch) StreamTransactions(params *old_faithful_grpc.StreamTran
 	}
 
 	return multi.processSlotTransactions(ctx, ser, startSlot, endSlot, params.Filter, gsfaReader, gsfaReadersLoaded)
+}
+
+// validateStreamTransactionsFilter makes sure that every account of the filter is a base58-encoded public key,
+// so that the filter can later be applied with solana.MustPublicKeyFromBase58 without panicking.
+func validateStreamTransactionsFilter(filter *old_faithful_grpc.StreamTransactionsFilter) error {
+	if filter == nil {
+		return nil
+	}
+	for _, acc := range filter.AccountInclude {
+		if _, err := solana.PublicKeyFromBase58(acc); err != nil {
+			return fmt.Errorf("account_include: invalid account %q: %w", acc, err)
+		}
+	}
+	for _, acc := range filter.AccountExclude {
+		if _, err := solana.PublicKeyFromBase58(acc); err != nil {
+			return fmt.Errorf("account_exclude: invalid account %q: %w", acc, err)
+		}
+	}
+	for _, acc := range filter.AccountRequired {
+		if _, err := solana.PublicKeyFromBase58(acc); err != nil {
+			return fmt.Errorf("account_required: invalid account %q: %w", acc, err)
+		}
+	}
+	return nil
 }
 
 func (multi *MultiEpoch) processSlotTransactions(
